@@ -88,3 +88,15 @@ package dns
 //@   requires rr != nil && len(rrset) > 0
 //@   assert at "return rr.signAsIs(k, rrset)" fields: rr.Hdr.Rrtype == 46 && rr.Hdr.Name == h0.Name && rr.Hdr.Class == h0.Class && rr.TypeCovered == h0.Rrtype
 //@   assert at "return rr.signAsIs(k, rrset)" labels: rr.Labels == (callres("CountLabel") - (wildowner(h0.Name) ? 1 : 0)) % 256
+
+// canonical RR form (RFC 4034 6.2): each record is packed from a private copy whose TTL is the RRSIG's
+// original TTL and whose owner is the canonical (lower-case, fully-qualified) owner; a wildcard owner is
+// substituted exactly when the owner has more labels than the RRSIG's Labels field; the record is packed
+// uncompressed from offset 0
+//@ func rawSignatureData [C10]
+//@   assert at "labels := SplitDomainName(h.Name)" ttl: h.Ttl == s.OrigTtl && ref(h) == hdr(r1) && fresh(r1)
+//@   ghost cname at "switch x := r1.(type) {" h.Name
+//@   assert at "switch x := r1.(type) {" owner: h.Name == callres("CanonicalName")
+//@   assert at "wire := make([]byte, Len(r1)+1)" kept: h.Name == cname && h.Ttl == s.OrigTtl
+//@   callsite "PackRR" plain: same(arg0, r1) && arg2 == 0 && arg3 == nil && !arg4
+//@   callsite "Join" wild: len(labels) > s.Labels
